@@ -137,6 +137,33 @@ def gen_busy_deferred_script(rng):
     return '\n'.join(L) + '\n'
 
 
+def gen_quantum_script(rng):
+    """One delete reaches every closed blob; the index dump task that follows is slowed down (failpoint delays on the
+    blob syncs of some of the dumps) so that it needs several of its 200 ms time quanta: EVERY blob's index must have been
+    dumped again when the task is done -- also the blob at which a quantum ended."""
+    K = 4
+    nb = rng.choice([4, 6, 8])
+    L = ['cfg K=4 dup=1 group=%d bloom=none init=eager runtime=%s defer=5:10 nomodel=1' % (rng.choice([2, 8]), rng.choice(['mt', 'ct'])), 'open']
+    k1 = (1).to_bytes(K, 'big').hex()
+    seed = 0
+    for b in range(nb):
+        seed += 1
+        L.append('W %s 5 - 5 %d' % (k1, seed))
+        seed += 1
+        L.append('W %s 5 - 5 %d' % ((b + 2).to_bytes(K, 'big').hex(), seed))
+        L.append('close_active')
+    L += ['quiesce', 'nop base', 'ls', 'create_active', 'autoquiesce 0']
+    for n in sorted(rng.sample(range(nb), rng.choice([1, 2]))):
+        L.append('fail sync .blob %d delay:%d' % (n, rng.choice([250, 300])))
+    L.append('D %s 50 - 1' % k1)
+    L.append('sleep %d' % (1500 + 400 * nb // 2))
+    L.append('clearfail')
+    for i in range(nb):
+        L += ['nop redump=%d %d' % (i, 57 + K), 'ls']
+    L += ['autoquiesce 1', 'quiesce', 'counts', 'close']
+    return '\n'.join(L) + '\n'
+
+
 def gen_rotation_script(rng):
     """Rotation after a rotation request that came to nothing: the switch asked for by an overflowing write FAILS (the
     file of the next blob cannot be created) or has become MOOT when the worker gets to it (the full blob was closed by
@@ -181,7 +208,7 @@ def gen_rotation_script(rng):
 def gen(tier, rng):
     n = 96 if tier == 'quick' else 1500
     return [('bg%05d' % i, gen_script(rng)) for i in range(n)] + [('spaced%05d' % i, gen_spaced_script(rng)) for i in range(n // 4)] + \
-           [('deferred%05d' % i, gen_deferred_script(rng)) for i in range(n // 6)] + [('rotation%05d' % i, gen_rotation_script(rng)) for i in range(n // 4)] + [('busy%05d' % i, gen_busy_deferred_script(rng)) for i in range(n // 10)]
+           [('deferred%05d' % i, gen_deferred_script(rng)) for i in range(n // 6)] + [('rotation%05d' % i, gen_rotation_script(rng)) for i in range(n // 4)] + [('busy%05d' % i, gen_busy_deferred_script(rng)) for i in range(n // 10)] + [('quantum%05d' % i, gen_quantum_script(rng)) for i in range(n // 10)]
 
 
 def next_of(line):
